@@ -220,7 +220,7 @@ def execute(spec):
         return _enumerate_crash_points(spec, spec["enumerate"])
     r = sysrun.run_system(spec["text"], spec["ops_seed"], dict(spec["sched"]), n_generators=spec["n_generators"], faults=spec["faults"],
                           props=("C04", "C05", "C06"), system_molweight=spec.get("system_molweight"),
-                          sibling_systems=bool(spec.get("siblings")))
+                          sibling_systems=bool(spec.get("siblings")), screen_first=spec["ops_seed"] % 4 == 0)
     if r.get("harness_error"):
         return r
     viols = r["violations"]
